@@ -50,6 +50,72 @@ theorem vertexSet_only_setError (h : Heap) (s : Step Val) (pm : MNode Val) (v : 
     · simp at he; exact he.symm
   · simp at he; exact he.symm
 
+/-- **`set_` / `set_match` fail only with SetError or a documented traversal error** — for every
+path length, with and without cascade (the recursion of the cascade included): a missing
+parent is SetError (or is created), whatever the parent search raises is TraversingError /
+InfiniteLoopDetected, the last vertex refuses with SetError.  (`bug` marks branches the model
+keeps for totality: a path shorter than its own length, `must_match` returning nothing.) -/
+theorem setMatch_only_documented (stepsOf : Heap → List (Step Val)) (src : Src Val)
+    (hsup : ∀ h0, ∀ s ∈ stepsOf h0, s.supported = true) :
+    ∀ (n : Nat) (cascade : Bool) (h h' : Heap) (v : Val) (e : ApiErr),
+      setMatchN stepsOf src cascade n h v = (h', .error e) →
+      e = .setError ∨ (∃ x, e = .exc x ∧ x.documented = true) ∨ (∃ m, e = .bug m) := by
+  intro n
+  induction n with
+  | zero =>
+    intro cascade h h' v e he
+    simp only [setMatchN, Prod.mk.injEq, Except.error.injEq] at he
+    exact .inl he.2.symm
+  | succ n ih =>
+    intro cascade h h' v e he
+    simp only [setMatchN] at he
+    split at he
+    · simp only [Prod.mk.injEq, Except.error.injEq] at he
+      exact .inr (.inr ⟨_, he.2.symm⟩)
+    · rename_i last _
+      split at he
+      · rename_i pm _
+        split at he
+        · simp at he
+        · rename_i e1 hv
+          simp only [Prod.mk.injEq, Except.error.injEq] at he
+          rw [← he.2]
+          exact .inl (vertexSet_only_setError h last pm v e1 hv)
+      · simp only [Prod.mk.injEq, Except.error.injEq] at he
+        exact .inr (.inr ⟨_, he.2.symm⟩)
+      · rename_i e0 hg
+        have hsup' : ∀ s ∈ ((stepsOf h).take n).toArray.toList, s.supported = true := by
+          intro s hs
+          exact hsup h s (List.mem_of_mem_take (by simpa using hs))
+        have hdoc := getMatch_only_documented (wcx h) ((stepsOf h).take n).toArray src true hsup' e0 hg
+        by_cases hnf : isNotFound e0 = true
+        · simp only [hnf, if_true] at he
+          by_cases hc : cascade = true
+          · simp only [hc, if_true] at he
+            split at he
+            · rename_i h2 pm hrec
+              split at he
+              · simp at he
+              · rename_i e1 hv
+                simp only [Prod.mk.injEq, Except.error.injEq] at he
+                rw [← he.2]
+                exact .inl (vertexSet_only_setError h2 last pm v e1 hv)
+            · rename_i h2 e1 hrec
+              simp only [Prod.mk.injEq, Except.error.injEq] at he
+              rw [← he.2]
+              exact ih true _ h2 _ e1 hrec
+          · simp only [hc] at he
+            simp only [Bool.false_eq_true, if_false, Prod.mk.injEq, Except.error.injEq] at he
+            exact .inl he.2.symm
+        · simp only [hnf] at he
+          simp only [Bool.false_eq_true, if_false, Prod.mk.injEq, Except.error.injEq] at he
+          rw [← he.2]
+          rcases hdoc with rfl | rfl | hx | hb
+          · simp [isNotFound] at hnf
+          · simp [isNotFound] at hnf
+          · exact .inr (.inl hx)
+          · exact .inr (.inr hb)
+
 /-- `set_` / `set_match` aimed at the root: SetError (fix F3), with or without cascade -/
 theorem set_root_is_setError (stepsOf : Heap → List (Step Val)) (src : Src Val) (cascade : Bool) (h : Heap) (v : Val)
     (hroot : stepsOf h = []) : (setMatch stepsOf src cascade h v).2 = .error .setError := by
